@@ -211,8 +211,28 @@ def _producer(arg):
     def fsck(args):
         return run.run([b.tool("e2fsck")] + args + [img], env=env, timeout=300)
 
-    pipe = rng.choice(["plain", "debugfs", "tune-uuid", "tune-csum-cycle", "tune-seed", "resize", "repair",
-                       "rehash", "journal"])
+    pipes = ["plain", "debugfs", "tune-uuid", "tune-csum-cycle", "tune-seed", "resize", "repair",
+             "rehash", "journal", "isize"]
+    pipe = pipes[(idx + seed + idx // len(pipes)) % len(pipes)]     # every pipeline in every run
+    if pipe == "isize":
+        # inodes whose extended part is shorter than usual, down to the minimum of 4 bytes that
+        # still holds i_checksum_hi (the boundary of the 16/32-bit inode checksum rule)
+        host = os.path.join(workdir, "h%d" % idx)
+        with open(host, "wb") as f:
+            f.write(bytes(range(256)) * 3)
+        script = ["mkdir /c14i"]
+        for k, n in enumerate((4, 8, 12, 16, 20, 24, 28, 32)):
+            nm = "/c14i/f%d" % k
+            script.append("write %s %s" % (host, nm))
+            for fld in ("ctime_extra", "mtime_extra", "atime_extra", "crtime", "crtime_extra", "version_hi",
+                        "projid"):
+                script.append("sif %s %s 0" % (nm, fld))
+            script.append("sif %s extra_isize %d" % (nm, n))
+            script.append("sif %s mtime 1234567" % nm)       # one more rewrite through the library
+        sf = img + ".cmd"
+        open(sf, "w").write("\n".join(script) + "\n")
+        run.run([b.tool("debugfs"), "-w", "-f", sf, img], env=env, timeout=300)
+        steps.append("debugfs(sif extra_isize 4..32 on 8 files)")
     if pipe == "debugfs":
         host = os.path.join(workdir, "h%d" % idx)
         with open(host, "wb") as f:
